@@ -4439,6 +4439,8 @@ class ParseCtx:
         i = 0
         while i < len(contents):
             if contents[i] != '\\':
+                if ord(contents[i]) > 255:
+                    raise IllegalParseTree(f"Character {contents[i]!r} in string literal is not a byte value; spell its encoding with \\xHH escapes")
                 result += contents[i]
                 i += 1
             else:
@@ -5528,7 +5530,8 @@ class CodegenCtx:
     def _escape_string(self, value: Union[bytes, str]):
         result = ""
         if type(value) is str:
-            bytes_value = value.encode('utf-8')
+            # strings hold byte values as code points (that is how they are matched and counted)
+            bytes_value = value.encode('latin-1')
         else:
             bytes_value = value
         for i in bytes_value:
@@ -5551,7 +5554,7 @@ class CodegenCtx:
         """
 
         if isinstance(value, str):
-            escaped_length = len(value.encode('utf-8'))
+            escaped_length = len(value.encode('latin-1'))
         else:
             escaped_length = len(value)
 
